@@ -136,15 +136,18 @@ end
 partial def fmtLawB (L : TextLib Float) : List Nat → DType Float → PVal Float → Bool
   | pos, .double _ _ _ _, .float x =>
     (match L.evalAtom (L.fmtFloat pos x) with
-     | some w => (match doubleCall w with
-       | .ok y => L.fmtFloat pos y == L.fmtFloat pos x
-       | .error _ => false)
+     | some w => (match PVal.toFloat? w with
+       | some r => !FloatOps.isNaN r &&
+           L.fmtFloat pos (FloatOps.median3 (FloatOps.neg FloatOps.maxFinite) r FloatOps.maxFinite) == L.fmtFloat pos x
+       | none => false)
      | none => false)
   | pos, .scaled scale _ _ _ _, .float x =>
     (match L.evalAtom (L.fmtFloat pos x) with
-     | some w => (match scaledCall scale w with
-       | .ok y => L.fmtFloat pos y == L.fmtFloat pos x && decide (SnapFix scale y)
-       | .error _ => false)
+     | some w => (match PVal.toFloat? w with
+       | some r => (match DType.snap scale r with
+         | some y => FloatOps.isFinite y && L.fmtFloat pos y == L.fmtFloat pos x && decide (SnapFix scale y)
+         | none => false)
+       | none => false)
      | none => false)
   | pos, .array e _ _, .tuple vs => vs.all (fmtLawB L (pos ++ [0]) e)
   | pos, .tuple es, .tuple vs => ((es.zip vs).zipIdx).all (fun ((t, v), i) => fmtLawB L (pos ++ [i]) t v)
